@@ -259,6 +259,45 @@ def ShardStateUnsplit (sp : Bool) (cell_slice : Frag) : Rd.R := do
     pure ((Rd.obj "ShardStateUnsplit" [("global_id", t2), ("shard_id", t3), ("seq_no", t4), ("vert_seq_no", t5), ("gen_utime", t6), ("gen_lt", t7), ("min_ref_mc_seqno", t8), ("out_msg_queue_info", t9), ("before_split", t10), ("accounts", t11), ("overload_history", t26), ("underload_history", t27), ("total_balance", t28), ("total_validator_fees", t29), ("libraries", t30), ("master_ref", t31), ("custom", t32)]), cell_slice)
 -- END ShardStateUnsplit
 
+-- BEGIN McBlockExtra
+def McBlockExtra (sp : Bool) (cell_slice : Frag) : Rd.R := do
+  if sp then do
+    pure (Val.unit, cell_slice)
+  else do
+    let (t1, cell_slice) ← Rd.loadBytes 2 cell_slice
+    if (!Rd.veq t1 (Rd.bytesLit [204, 165])) then none else
+    let (t2, cell_slice) ← Rd.loadBit cell_slice
+    let (t3, cell_slice) ← Rd.loadShardHashes ShardDescr cell_slice
+    let (t4, cell_slice) ← Rd.loadMaybeRef cell_slice
+    let (t5, cell_slice) ← SrcTx.CurrencyCollection sp cell_slice
+    let (t6, cell_slice) ← SrcTx.CurrencyCollection sp cell_slice
+    let (c7, cell_slice) ← Rd.loadRef cell_slice
+    let r8 := Rd.beginParse c7
+    let sl_ref := r8
+    let (t9, sl_ref) ← Rd.loadDictRaw 16 sl_ref
+    let (t10, sl_ref) ← Rd.loadMaybeRef sl_ref
+    let (t11, sl_ref) ← Rd.loadMaybeRef sl_ref
+    let t12 := Val.unit
+    let (t14, cell_slice) ← (if (Rd.truthy t2) then do
+          let (t13, cell_slice) ← ConfigParams sp cell_slice
+          pure (t13, cell_slice)
+        else pure (t12, cell_slice))
+    pure ((Rd.obj "McBlockExtra" [("key_block", t2), ("shard_hashes", t3), ("shard_fees", (Rd.presence t4)), ("prev_blk_signatures", t9), ("recover_create_msg", t10), ("mint_msg", t11), ("config", t14)]), cell_slice)
+-- END McBlockExtra
+
+-- BEGIN ShardState
+def ShardState (sp : Bool) (cell_slice : Frag) : Rd.R := do
+  let t1 ← Rd.preloadBytes 4 cell_slice
+  if (Rd.veq t1 (Rd.bytesLit [95, 50, 125, 165])) then do
+    let (t2, cell_slice) ← Rd.loadBytes 4 cell_slice
+    let (t3, cell_slice) ← Rd.viaRef ShardStateUnsplit cell_slice
+    let (t4, cell_slice) ← Rd.viaRef ShardStateUnsplit cell_slice
+    pure ((Rd.obj "ShardState" [("type_", (Rd.str "split_state")), ("left", t3), ("right", t4)]), cell_slice)
+  else do
+    let (t5, cell_slice) ← ShardStateUnsplit sp cell_slice
+    pure ((Rd.obj "ShardState" [("type_", (Rd.str "_")), ("shard_state_unsplit", t5)]), cell_slice)
+-- END ShardState
+
 /-- the readers by class name (driver op `tlbsrcblk`) -/
 def readers : List (String × (Bool → Frag → Rd.R)) := [
   ("DepthBalanceInfo", DepthBalanceInfo),
@@ -273,6 +312,8 @@ def readers : List (String × (Bool → Frag → Rd.R)) := [
   ("BlockCreateStats", BlockCreateStats),
   ("ConfigParams", ConfigParams),
   ("McStateExtra", McStateExtra),
-  ("ShardStateUnsplit", ShardStateUnsplit)]
+  ("ShardStateUnsplit", ShardStateUnsplit),
+  ("McBlockExtra", McBlockExtra),
+  ("ShardState", ShardState)]
 
 end TonVerif.Tlb.SrcBlk
